@@ -50,7 +50,7 @@ func copyTree(root string) (string, error) {
 
 func applyVariant(d string, v *variant) (bool, string) {
 	if v.patch != "" {
-		cmd := exec.Command("patch", "-p1", "-s", "-d", d, "-i", v.patch)
+		cmd := exec.Command("patch", "-p1", "-s", "--fuzz=3", "-d", d, "-i", v.patch)
 		if out, err := cmd.CombinedOutput(); err != nil {
 			return false, "patch does not apply to the current tree: " + strings.TrimSpace(string(out))
 		}
@@ -167,6 +167,12 @@ func thorough(w *World, p *Property, results []*RuleResult, extra map[string]any
 	}
 	if b, err := os.ReadFile(filepath.Join(verifDir, "selftest", "benign.json")); err == nil {
 		json.Unmarshal(b, &benign)
+	}
+	// behaviour-preserving refactorings written independently of the checker
+	refacs, _ := filepath.Glob(filepath.Join(verifDir, "selftest", "refactor", "*", "r*.diff"))
+	sort.Strings(refacs)
+	for _, rp := range refacs {
+		benign = append(benign, &variant{Name: "refactor/" + filepath.Base(filepath.Dir(rp)) + "/" + strings.TrimSuffix(filepath.Base(rp), ".diff"), patch: rp})
 	}
 	type res struct {
 		Name    string   `json:"name"`
